@@ -363,6 +363,20 @@ func (r *runner) openOnce(dir string) openResult {
 	}
 }
 
+// ampBoundMB: what an Open has any use for - the engine's own structures plus, for every frame or
+// candidate frame it looks at, a buffer no larger than the file.  ReadFrame allocating (and zeroing) the
+// full declared length for a header whose payload cannot be in the file goes far beyond it: every stray
+// magic byte followed by an in-cap "length" (ASCII bytes read as one are 0.5-1 GB) costs that much.
+func ampBoundMB(data []byte) int {
+	cands := 1
+	for _, b := range data {
+		if b == persistence.MagicByte {
+			cands++
+		}
+	}
+	return allocSlackMB + (4*cands*len(data))>>20
+}
+
 func writeAOF(dir string, data []byte) error {
 	os.RemoveAll(dir)
 	if err := os.MkdirAll(dir, 0o755); err != nil {
@@ -486,6 +500,16 @@ func (r *runner) runDmg(c *caseRec) {
 			r.res.Degenerate++
 			continue
 		}
+		if len(f.data) > 0 && f.data[0] != persistence.MagicByte && (c.N >= 4) != (len(f.data) >= persistence.HeaderSize) {
+			// a remainder shorter than a header is "incomplete", a longer one "invalid magic" (refusal); the
+			// abstract header is 4 symbols, the real one 10 bytes, and both outcomes are legal here
+			r.res.Degenerate++
+			continue
+		}
+		if !r.faithful(c, l, f) {
+			r.res.Degenerate++
+			continue
+		}
 		r.progress(c.ID, f.sub)
 		dir := filepath.Join(base, fmt.Sprintf("d%d", fi))
 		if err := writeAOF(dir, f.data); err != nil {
@@ -527,6 +551,13 @@ func (r *runner) runDmg(c *caseRec) {
 		if bound := allocBoundMB(f.data); first.allocMB > bound {
 			r.diverge(c, "alloc_unbounded", f.sub, fmt.Sprintf("engine.Open allocated %d MB on a %d byte file; the length fields within the cap account for at most %d MB", first.allocMB, len(f.data), bound), nil)
 		}
+		if amp := ampBoundMB(f.data); first.allocMB > amp {
+			r.res.Amplified++
+			if r.res.Amplified <= 3 {
+				r.diverge(c, "alloc_amplified", f.sub, fmt.Sprintf("engine.Open allocated %d MB to recover a %d byte file with %d magic bytes (no buffer larger than the file is ever needed: at most %d MB)",
+					first.allocMB, len(f.data), bytes.Count(f.data, []byte{persistence.MagicByte}), amp), nil)
+			}
+		}
 		if c.Out == "REFUSED" {
 			r.diverge(c, "spec_mismatch", f.sub, "spec: Open refuses; code started", nil)
 			continue
@@ -564,7 +595,13 @@ func (r *runner) runDmg(c *caseRec) {
 			r.diverge(c, "spec_mismatch", f.sub, fmt.Sprintf("spec: truncated=%v; file went from %d to %d bytes", c.Trunc, len(f.data), len(after)), nil)
 			continue
 		}
-		// a second start on the repaired file sees the same commands
+		// a second start on the repaired file sees the same commands. (When the first start had to zero
+		// giant buffers - a stray magic byte followed by an in-cap "length" - the second one does the same
+		// again; those are re-run only one time in eight to keep the run time in budget.)
+		if first.allocMB > 64 && rng.Intn(8) != 0 {
+			os.RemoveAll(dir)
+			continue
+		}
 		second := r.openOnce(dir)
 		switch {
 		case second.hang:
